@@ -135,3 +135,171 @@ Definition run_rate (max_load max_i_ka df par vn s3 : Q) : out := oq (rate_a max
 (* ---- transformer rating (build_branch.py:386-396): RATE_A = max_loading_percent / 100 * sn_mva * df * parallel *)
 Definition rate_a_trafo (max_load sn df par : Q) : Q := qmul (qmul (qmul (qdiv max_load 100) sn) df) par.
 Definition run_rate_trafo (max_load sn df par : Q) : out := oq (rate_a_trafo max_load sn df par).
+
+(* ================================================================ bus power balance (OPF equality constraints / power flow)
+   makeSbus.py _get_Sbus :16-20  Sbus = (Cg (PG + j QG) - (PD + j QD)) / baseMVA over the generator rows that are on;
+   build_bus.py _calc_pq_elements_and_add_on_ppc :605-667  PD/QD = sum of sign * p * scaling of the pq elements of the
+     mode (OPF: in service and NOT controllable; power flow: in service), sign = -1 for sgen;
+   build_gen.py: generator rows = ext_grids, gens (dcline generators included) and, OPF only, controllable sgen/load/storage
+     with PG = rsign * p;
+   opf_consfcn.py:78-93  mis = V conj(Ybus V) - Sbus,  g = [Re mis; Im mis]   (every bus);
+   newtonpf.py _evaluate_Fx :693-701  F = [Re mis[pv]; Re mis[pq]; Im mis[pq]],  _check_for_convergence :894 norm(F, inf) < tol. *)
+From PPV Require Import Base.QC.
+
+Record genrow := { gb_bus : nat; gb_on : bool; gb_pg : Q; gb_qg : Q }.     (* GEN_BUS, GEN_STATUS > 0, PG, QG *)
+Record dem := { dm_bus : nat; dm_p : Q; dm_q : Q }.                         (* one pq element's contribution to PD / QD *)
+
+Definition sum_at {A} (bus : A -> nat) (val : A -> C) (l : list A) (i : nat) : C :=
+  fold_right (fun a acc => if Nat.eqb (bus a) i then Cadd (val a) acc else acc) C0 l.
+Definition Cdivq (z : C) (d : Q) : C := mkC (qdiv (re z) d) (qdiv (im z) d).
+Definition sbus_at (base : Q) (gens : list genrow) (dems : list dem) (i : nat) : C :=
+  Cdivq (Csub (sum_at gb_bus (fun g => mkC (gb_pg g) (gb_qg g)) (filter gb_on gens) i)
+              (sum_at dm_bus (fun d => mkC (dm_p d) (dm_q d)) dems i)) base.
+
+Definition row_dot (row V : list C) : C := Csum (map (fun yv => Cmul (fst yv) (snd yv)) (combine row V)).
+Definition mis_at (Y : list (list C)) (V : list C) (sb : nat -> C) (i : nat) : C :=
+  Csub (Cmul (nth i V C0) (Cconj (row_dot (nth i Y []) V))) (sb i).
+Definition opf_g (nb : nat) (Y : list (list C)) (V : list C) (sb : nat -> C) : list Q :=
+  map (fun i => re (mis_at Y V sb i)) (seq 0 nb) ++ map (fun i => im (mis_at Y V sb i)) (seq 0 nb).
+Definition pf_F (Y : list (list C)) (V : list C) (sb : nat -> C) (pv pq : list nat) : list Q :=
+  map (fun i => re (mis_at Y V sb i)) pv ++ map (fun i => re (mis_at Y V sb i)) pq ++ map (fun i => im (mis_at Y V sb i)) pq.
+(* numpy raises on an index outside the arrays *)
+Definition shapes_ok (nb : nat) (Y : list (list C)) (V : list C) (idx : list nat) : bool :=
+  Nat.eqb (List.length Y) nb && Nat.eqb (List.length V) nb && forallb (fun r => Nat.eqb (List.length r) nb) Y
+  && forallb (fun i => Nat.ltb i nb) idx.
+Definition pf_converged (F : list Q) (tol : Q) : bool :=
+  match F with [] => qltb 0 tol | _ => forallb (fun x => qltb (Qabs.Qabs x) tol) F end.
+
+(* the elements behind the rows: own-sign powers p, q (the values of the result tables: rsign * PG for an OPF variable,
+   p_mw * scaling for a fixed element), on = in service, var = OPF variable (controllable sgen / load / storage);
+   xp, xq: what the generator row of the power flow holds where the dispatch gives no setpoint (P of an ext_grid,
+   Q of every gen / ext_grid) *)
+Record el := { l_kind : kind; l_bus : nat; l_on : bool; l_var : bool; l_p : Q; l_q : Q; l_xp : Q; l_xq : Q }.
+Definition is_vctrl (e : el) : bool := match l_kind e with KGen | KExt => true | _ => false end.
+Definition is_row (e : el) : bool := is_vctrl e || l_var e.
+Definition pdsign (k : kind) : Q := match k with KSgen => (-1 # 1) | _ => 1 end.   (* build_bus.py:640 *)
+Definition as_dem (e : el) : dem :=
+  {| dm_bus := l_bus e; dm_p := qmul (pdsign (l_kind e)) (l_p e); dm_q := qmul (pdsign (l_kind e)) (l_q e) |}.
+(* the OPF's ppc *)
+Definition opf_gens (els : list el) : list genrow :=
+  map (fun e => {| gb_bus := l_bus e; gb_on := true; gb_pg := qmul (rsign (l_kind e)) (l_p e);
+                   gb_qg := qmul (rsign (l_kind e)) (l_q e) |}) (filter (fun e => l_on e && is_row e) els).
+Definition opf_dems (els : list el) : list dem := map as_dem (filter (fun e => l_on e && negb (is_row e)) els).
+(* the ppc of the power flow that takes the dispatch as setpoints: gens keep their active power *)
+Definition pf_gens (els : list el) : list genrow :=
+  map (fun e => {| gb_bus := l_bus e; gb_on := true;
+                   gb_pg := match l_kind e with KExt => l_xp e | _ => l_p e end; gb_qg := l_xq e |})
+      (filter (fun e => l_on e && is_vctrl e) els).
+Definition pf_dems (els : list el) : list dem := map as_dem (filter (fun e => l_on e && negb (is_vctrl e)) els).
+
+(* Sbus of the OPF's ppc and of the power flow's ppc (per bus 0..nb-1), the OPF's g and the power flow's F at V *)
+Definition run_balance (base : Q) (nb : nat) (els : list el) (Y : list (list C)) (V : list C)
+                       (pv pq : list nat) (tol : Q) : out :=
+  let sbo := sbus_at base (opf_gens els) (opf_dems els) in
+  let sbp := sbus_at base (pf_gens els) (pf_dems els) in
+  if negb (shapes_ok nb Y V (pv ++ pq)) then OErr "IndexError"
+  else OL [ olist oc (map sbo (seq 0 nb)); olist oc (map sbp (seq 0 nb));
+            olist oq (opf_g nb Y V sbo); olist oq (pf_F Y V sbp pv pq); OB (pf_converged (pf_F Y V sbp pv pq) tol) ].
+
+(* ================================================================ bus voltage limits, complete chain (OPF mode)
+   bus table limits -> _build_pp_ext_grid :124-136 (fixed ext_grids pin vm +- delta) -> _check_gen_vm_limits :156-181
+   (gen.max_vm_pu / min_vm_pu) -> _enforce_controllable_vm_pu_p_mw :184-200 (fixed gens pin vm +- delta)
+   -> _replace_nans_with_default_limits (VMAX NaN -> 2.0, VMIN NaN -> 0.0).   Limits are (VMIN, VMAX), NaN = None. *)
+Definition np_pos (n : nat) (i : Z) : option nat :=
+  if (0 <=? i)%Z && (i <? Z.of_nat n)%Z then Some (Z.to_nat i)
+  else if (i <? 0)%Z && (- Z.of_nat n <=? i)%Z then Some (Z.to_nat (i + Z.of_nat n)) else None.
+
+(* ext_grid rows in table order: index label, bus position, vm_pu, in service, controllable (None: no such column) *)
+Record egrow := { x_label : Z; x_bus : nat; x_vm : Q; x_on : bool; x_ctrl : option bool }.
+(* :126-136 (repaired) — the constrained rows are selected by one positional mask (in service and not controllable)
+   and each pins its bus to its OWN vm_pu; without the column every in-service ext_grid does *)
+Definition eg_writes (egs : list egrow) : option (list (nat * Q)) :=
+  Some (map (fun r => (x_bus r, x_vm r))
+            (filter (fun r => x_on r && match x_ctrl r with Some true => false | _ => true end) egs)).
+(* before the repair the voltage was read from net.ext_grid.vm_pu.values[eg_constrained.index]: the index LABEL was
+   used as a POSITION (another ext_grid's voltage, or IndexError) *)
+Fixpoint eg_writes_go_old (all : list egrow) (rows : list egrow) : option (list (nat * Q)) :=
+  match rows with
+  | [] => Some []
+  | r :: t =>
+      match eg_writes_go_old all t with
+      | None => None
+      | Some rest =>
+          if x_on r then
+            match x_ctrl r with
+            | None => Some ((x_bus r, x_vm r) :: rest)
+            | Some true => Some rest
+            | Some false =>
+                match np_pos (List.length all) (x_label r) with
+                | Some k => match nth_error all k with Some r' => Some ((x_bus r, x_vm r') :: rest) | None => None end
+                | None => None
+                end
+            end
+          else Some rest
+      end
+  end.
+Definition eg_writes_old (egs : list egrow) : option (list (nat * Q)) := eg_writes_go_old egs egs.
+(* what it should read: the row's own voltage *)
+Definition eg_writes_spec (egs : list egrow) : list (nat * Q) :=
+  map (fun r => (x_bus r, x_vm r))
+      (filter (fun r => x_on r && match x_ctrl r with Some true => false | _ => true end) egs).
+Fixpoint labels_are_positions (k : Z) (egs : list egrow) : bool :=
+  match egs with [] => true | r :: t => Z.eqb (x_label r) k && labels_are_positions (k + 1) t end.
+(* guard of the rule before the repair *)
+Definition G16eg_old (egs : list egrow) : bool := labels_are_positions 0 egs.
+
+Definition olim := (option Q * option Q)%type.
+Definition ltb_nan (a b : option Q) : bool := match a, b with Some x, Some y => qltb x y | _, _ => false end.
+(* gens in service, table order: bus position, max_vm_pu, min_vm_pu.  The masks are taken against the limits BEFORE
+   the writes; (repaired) np.minimum.at / np.maximum.at combine the limits of several gens at one bus, NaN propagates *)
+Definition nmin (a b : option Q) : option Q := match a, b with Some x, Some y => Some (qmin x y) | _, _ => None end.
+Definition nmax (a b : option Q) : option Q := match a, b with Some x, Some y => Some (qmax x y) | _, _ => None end.
+Definition gen_vmax_step (lims0 : list olim) (l : list olim) (g : nat * option Q * option Q) : list olim :=
+  let b := fst (fst g) in let mx := snd (fst g) in
+  if ltb_nan (snd (nth b lims0 (None, None))) mx then l
+  else set_nth l b (fst (nth b l (None, None)), nmin (snd (nth b l (None, None))) mx).
+Definition gen_vmin_step (lims0 : list olim) (l : list olim) (g : nat * option Q * option Q) : list olim :=
+  let b := fst (fst g) in let mn := snd g in
+  if ltb_nan mn (fst (nth b lims0 (None, None))) then l
+  else set_nth l b (nmax (fst (nth b l (None, None))) mn, snd (nth b l (None, None))).
+Definition gen_vm_limits (lims : list olim) (gens : list (nat * option Q * option Q)) (has_max has_min : bool) : list olim :=
+  let l1 := if has_max then fold_left (gen_vmax_step lims) gens lims else lims in
+  if has_min then fold_left (gen_vmin_step l1) gens l1 else l1.
+(* before the repair: plain numpy assignment, with a repeated bus the LAST value was kept *)
+Definition gen_vmax_step_old (lims0 : list olim) (l : list olim) (g : nat * option Q * option Q) : list olim :=
+  let b := fst (fst g) in let mx := snd (fst g) in
+  if ltb_nan (snd (nth b lims0 (None, None))) mx then l else set_nth l b (fst (nth b l (None, None)), mx).
+Definition gen_vmin_step_old (lims0 : list olim) (l : list olim) (g : nat * option Q * option Q) : list olim :=
+  let b := fst (fst g) in let mn := snd g in
+  if ltb_nan mn (fst (nth b lims0 (None, None))) then l else set_nth l b (mn, snd (nth b l (None, None))).
+Definition gen_vm_limits_old (lims : list olim) (gens : list (nat * option Q * option Q)) (has_max has_min : bool) : list olim :=
+  let l1 := if has_max then fold_left (gen_vmax_step_old lims) gens lims else lims in
+  if has_min then fold_left (gen_vmin_step_old l1) gens l1 else l1.
+(* the declared limits taken together: the tightest of the bus limit and of all gens at the bus *)
+Definition omin (a b : option Q) : option Q :=
+  match a, b with Some x, Some y => Some (qmin x y) | Some x, None => Some x | None, o => o end.
+Definition omax (a b : option Q) : option Q :=
+  match a, b with Some x, Some y => Some (qmax x y) | Some x, None => Some x | None, o => o end.
+(* guard of the rule before the repair: no two in-service gens sit on the same bus *)
+Fixpoint nodup_nat (l : list nat) : bool :=
+  match l with [] => true | x :: t => negb (existsb (Nat.eqb x) t) && nodup_nat t end.
+Definition G16vm_old (gens : list (nat * option Q * option Q)) : bool := nodup_nat (map (fun g => fst (fst g)) gens).
+
+Definition pin_writes (l : list olim) (ws : list (nat * Q)) (delta : Q) : list olim :=
+  fold_left (fun l w => set_nth l (fst w) (Some (qsub (snd w) delta), Some (qadd (snd w) delta))) ws l.
+Definition vm_chain (lims : list olim) (egs : list egrow) (gens : list (nat * option Q * option Q)) (has_max has_min : bool)
+                    (fixed_gens : list (nat * Q)) (delta : Q) : option (list (Q * Q)) :=
+  match eg_writes egs with
+  | None => None
+  | Some ws =>
+      let l1 := pin_writes lims ws delta in
+      let l2 := gen_vm_limits l1 gens has_max has_min in
+      let l3 := pin_writes l2 fixed_gens delta in
+      Some (map (fun p => (dflt (fst p) 0, dflt (snd p) 2)) l3)
+  end.
+Definition run_vm_chain (lims : list olim) (egs : list egrow) (gens : list (nat * option Q * option Q)) (has_max has_min : bool)
+                        (fixed_gens : list (nat * Q)) (delta : Q) : out :=
+  match vm_chain lims egs gens has_max has_min fixed_gens delta with
+  | None => OErr "IndexError"
+  | Some l => olist (fun p => OL [oq (fst p); oq (snd p)]) l
+  end.
